@@ -334,7 +334,10 @@ def round (sc : Scripts) : Nat → World → World × List Ev
           let w1 := callSetup { w with hbs := w.hbs.set w.idx.toNat { hb with ticks := b.2.2 },
                                        nb := fun o => if o = hb.ob then w.nb o + 1 else w.nb o } hb.ob
           match runOps w1 hb.ob (sc hb.ob (w.nb hb.ob)) with
-          | (w2, evs, .err) => (errorHandler w2, .beat hb.ob :: ctxEv w1 hb.ob :: evs ++ [.tickAbort])
+          | (w2, evs, .err) =>
+            -- longjmp to backend()'s recovery point: restore_context() puts back the command_giver saved by
+            -- save_context() right after clear_state(), i.e. 0
+            ({ errorHandler w2 with cg := none }, .beat hb.ob :: ctxEv w1 hb.ob :: evs ++ [.tickAbort])
           | (w2, evs, _) =>
             let w2 := callAfter w2 hb.ob
             if (cursorStep w2).2 then (finish (cursorStep w2).1, .beat hb.ob :: ctxEv w1 hb.ob :: evs ++ [.beatEnd hb.ob, .tickEnd])
@@ -372,12 +375,37 @@ def tickCore (sc : Scripts) (w : World) : World × List Ev :=
     | (w', evs) => (w', begin :: evs)
   else (leave w (NV.Gen.C11.roundSkip w.idx w.todo (curInt w)), [begin, .tickEnd])
 
-/-- one pass of the backend() loop with the timer fired: pending program replacements, then call_heart_beat -/
+/-- harness rule: at most this many further passes with a round inside one `tick` command -/
+def maxPass : Nat := 5
+
+/-- the passes of the loop that follow a pass left by an error: remove_destructed_objects() -> replace_programs(), then
+    `if (HEART_BEAT_FLAG()) call_heart_beat ()` - the timer may have fired during the abandoned round (op `flag`), in
+    which case the next tick is served right away -/
+def morePasses (sc : Scripts) : Nat → World → World × List Ev
+  | 0, w =>
+    let a := applyRp w
+    if a.1.flag then ({ a.1 with flag := false }, a.2 ++ [.passLimit]) else a
+  | f + 1, w =>
+    let a := applyRp w
+    if a.1.flag then
+      let r := tickCore sc a.1
+      if r.2.contains .tickAbort then
+        let n := morePasses sc f r.1
+        (n.1, a.2 ++ r.2 ++ n.2)
+      else (r.1, a.2 ++ r.2)
+    else a
+
+/-- one `tick` of a case = backend() entered, one timer tick, backend() left through the cycle hook:
+    clear_state() (`command_giver = 0`), the start-up `call_heart_beat ()` (timer_flags still 0: no round, printed by the
+    harness as `tickbegin off` / `tickend`), then the loop: remove_destructed_objects() -> replace_programs(), the poll
+    (the timer tick arrives, timer_flags as configured), `if (HEART_BEAT_FLAG()) call_heart_beat ()`.  An uncaught error
+    sends the loop round again (`morePasses`) until a pass reaches the hook. -/
 def tick (sc : Scripts) (w : World) : World × List Ev :=
-  match applyRp w with
-  | (w1, e1) =>
-    match tickCore sc w1 with
-    | (w2, e2) => (w2, e1 ++ e2)
+  let r0 := tickCore sc { w with cg := none, tflags := 0 }
+  let r1 := applyRp { r0.1 with tflags := w.tflags }
+  let r2 := tickCore sc r1.1
+  let r3 := if r2.2.contains .tickAbort then morePasses sc maxPass r2.1 else (r2.1, [])
+  (r3.1, r0.2 ++ r1.2 ++ r2.2 ++ r3.2 ++ [.cgAfter r3.1.cg])
 
 /-- top-level commands of a case -/
 inductive Cmd where
